@@ -181,7 +181,7 @@ def _cli(case, pt):
         # selection drops the first / a middle / the last file: the printed list must still be one JSON document
         hid = os.path.join(d, 'hid')
         os.mkdir(hid)
-        for pattern in ('HVV', 'VHV', 'VVH', 'HHV', 'HVH', 'VHH', 'HHH'):
+        for pattern in ('HVV', 'VHV', 'VVH', 'HHV', 'HVH', 'VHH', 'HHH', 'UVV', 'VUV', 'VVU', 'PVV', 'VTV', 'VVT', 'EVV', 'VEV'):
             for f in os.listdir(hid):
                 os.unlink(os.path.join(hid, f))
             vis = []
@@ -189,8 +189,11 @@ def _cli(case, pt):
                 eid = 0x50000100 + i
                 spec = {'eid': eid, 'plid': eid, 'uh': {'sev': 0x40, 'flags': 0x6000 if c == 'H' else 0xA000},
                         'sections': [{'t': 'PS', 'ascii': codes[i % len(codes)].ljust(32)}]}
+                b = pelgen.encode_pel(pelgen.pel_from_spec(spec))
+                # damaged neighbours: U = User Header id wrong, P = Private Header id wrong, T = truncated, E = empty
+                b = {'U': b[:48] + b'XH' + b[50:], 'P': b'XX' + b[2:], 'T': b[:100], 'E': b''}.get(c, b)
                 with open(os.path.join(hid, 'g%d' % i), 'wb') as f:
-                    f.write(pelgen.encode_pel(pelgen.pel_from_spec(spec)))
+                    f.write(b)
                 if c == 'V':
                     vis.append('0x%08X' % eid)
             for extra in ([], ['-r']):
